@@ -414,3 +414,507 @@ Proof.
       rewrite flat_map_app, cnt_app in Hnr. cbn [flat_map] in Hnr. rewrite cnt_app in Hnr.
       destruct (Z.eq_dec r b); [congruence|]. unfold h2 in *. lia.
 Qed.
+
+(* ====================================================================================== *)
+(* The strengthened invariant InvA = Inv + (SZ) the three ghost lists are exactly the blocks below
+   the frontier, (AL) block alignment, (TOT) totality, (POS) a counted block has a non-negative
+   header (so it is referenced: no leak), (AC) acyclicity of the pointer slots of counted and
+   deferred blocks by a rank. *)
+Definition blk (base a : Z) : Prop := exists k, 0 <= k /\ a = base + k * BLOCK.
+
+Record Ext (base : Z) (s : st) (hl fl cl : list Z) : Prop := {
+  x_sz : Z.of_nat (length (hl ++ fl ++ cl)) * BLOCK = frontier s - base;
+  x_al : forall a, In a (hl ++ fl ++ cl) -> blk base a;
+  x_tot : forall a, blk base a -> a < frontier s -> In a (hl ++ fl ++ cl);
+  x_pos : forall b, In b cl -> 0 <= hdr (m s b);
+  x_ac : exists rank : Z -> nat,
+           forall x, In x (cl ++ fl) -> forall b, In b (ps (m s x)) -> b <> 0 -> (rank b < rank x)%nat;
+}.
+Definition InvA (base : Z) (s : st) (R hl fl cl : list Z) : Prop := Inv s R hl fl cl /\ Ext base s hl fl cl.
+
+Lemma invA_inv base s R hl fl cl : InvA base s R hl fl cl -> Inv s R hl fl cl.
+Proof. now intros [I _]. Qed.
+Lemma invA_perm_R base s R R' hl fl cl : Permutation R R' -> InvA base s R hl fl cl -> InvA base s R' hl fl cl.
+Proof. intros HP [I E]. split; auto. eapply inv_perm_R; eauto. Qed.
+
+Fixpoint lmax (f : Z -> nat) (l : list Z) : nat :=
+  match l with [] => O | x :: r => Nat.max (f x) (lmax f r) end.
+Lemma lmax_ge f l x : In x l -> (f x <= lmax f l)%nat.
+Proof. induction l as [|a l IH]; cbn; [tauto|]. intros [->|H]; [lia|]. specialize (IH H). lia. Qed.
+
+(* transfer of the extra clauses: the frontier stays or moves by one block (then the old frontier
+   block joins the lists); slots of counted/deferred blocks are unchanged; at most one block r
+   (0 if none) joins the counted/deferred blocks, and nothing points to it *)
+Lemma ext_transfer base s s' hl fl cl hl' fl' cl' r :
+  Ext base s hl fl cl ->
+  ((frontier s' = frontier s /\ Permutation (hl' ++ fl' ++ cl') (hl ++ fl ++ cl)) \/
+   (frontier s' = frontier s + BLOCK /\ Permutation (hl' ++ fl' ++ cl') (frontier s :: hl ++ fl ++ cl))) ->
+  (forall b, In b cl' -> 0 <= hdr (m s' b)) ->
+  (forall x, In x (cl' ++ fl') -> ps (m s' x) = ps (m s x) /\ (x = r \/ In x (cl ++ fl))) ->
+  (forall x, In x (cl ++ fl) \/ x = r -> forall b, In b (ps (m s x)) -> b <> 0 -> b <> r) ->
+  Ext base s' hl' fl' cl'.
+Proof.
+  intros E HF HPOS HPS HR. destruct E as [SZ AL TOT POS [rank AC]].
+  assert (HFB : frontier s = base + Z.of_nat (length (hl ++ fl ++ cl)) * BLOCK) by lia.
+  constructor.
+  - destruct HF as [[-> HP]|[-> HP]]; rewrite (Permutation_length HP); [exact SZ|]. cbn [length]. unfold BLOCK in *. lia.
+  - intros a Ha. destruct HF as [[_ HP]|[_ HP]]; apply (Permutation_in _ HP) in Ha; [now apply AL|].
+    destruct Ha as [<-|Ha]; [|now apply AL]. exists (Z.of_nat (length (hl ++ fl ++ cl))). split; [lia|exact HFB].
+  - intros a Hb Ha. destruct HF as [[E HP]|[E HP]]; apply (Permutation_in _ (Permutation_sym HP)).
+    + apply TOT; auto. lia.
+    + destruct (Z_lt_le_dec a (frontier s)) as [Hlt|Hge]; [right; now apply TOT|left].
+      destruct Hb as (k & Hk & ->). rewrite E, HFB in Ha. rewrite HFB in Hge |- *. unfold BLOCK in *. lia.
+  - exact HPOS.
+  - exists (fun x => if x =? r then S (lmax rank (ps (m s r))) else rank x).
+    intros x Hx b Hb Hb0. destruct (HPS x Hx) as [Eps Hx']. rewrite Eps in Hb.
+    assert (b <> r) as Hbr.
+    { apply (HR x); auto. destruct Hx'; auto. }
+    destruct (Z.eqb_spec b r); [contradiction|].
+    destruct (Z.eqb_spec x r) as [->|Hxr].
+    + pose proof (lmax_ge rank _ _ Hb). lia.
+    + destruct Hx' as [|Hx']; [contradiction|]. now apply (AC x).
+Qed.
+
+(* nothing points to a block that is not counted *)
+Lemma unref_facts s R hl fl cl r :
+  Inv s R hl fl cl -> r <> 0 -> ~ In r cl ->
+  ~ In r R /\ forall x, In x (cl ++ fl) -> ~ In r (ps (m s x)).
+Proof.
+  intros I Hr0 Hrc. pose proof (i_nr _ _ _ _ _ I r Hr0 Hrc) as H0. unfold refs in H0. rewrite cnt_app in H0.
+  pose proof (cnt_nonneg R r). pose proof (cnt_nonneg (flat_map (fun x => ps (m s x)) (cl ++ fl)) r).
+  split.
+  - intro Hin. apply cnt_in_pos in Hin. lia.
+  - intros x Hx Hin. pose proof (cnt_flat_map_in (fun x => ps (m s x)) _ x r Hx Hin). lia.
+Qed.
+
+Lemma erase_ps p s x : ps (m (erase p s) x) = ps (m s x).
+Proof. unfold erase. destruct (p =? 0); auto. destruct (hdr (m s p) =? 0); cbn; unfold set_hdr, upd; destruct (Z.eqb_spec x p); subst; auto. Qed.
+Lemma erase_hdr_other p s x : x <> p -> hdr (m (erase p s) x) = hdr (m s x).
+Proof. intros H. unfold erase. destruct (p =? 0); auto. destruct (hdr (m s p) =? 0); cbn; now rewrite hdr_set_hdr_other. Qed.
+Lemma erase_frontier p s : frontier (erase p s) = frontier s.
+Proof. unfold erase. destruct (p =? 0); auto. destruct (hdr (m s p) =? 0); reflexivity. Qed.
+Lemma release_ps p s x : ps (m (release p s) x) = ps (m s x).
+Proof. unfold release. cbn. unfold set_hdr, upd. destruct (Z.eqb_spec x p); subst; auto. Qed.
+Lemma share_hdr_other p n s x : x <> p -> hdr (m (share p n s) x) = hdr (m s x).
+Proof. intros H. unfold share. destruct (p =? 0); auto. cbn. now rewrite hdr_set_hdr_other. Qed.
+
+Ltac in_lists := rewrite ?in_app_iff in *; cbn [In] in *; rewrite ?in_app_iff in *; cbn [In] in *; intuition (subst; auto).
+
+(* ---------- share ---------- *)
+Lemma share_counted_invA base s R hl fl cl p n :
+  InvA base s R hl fl cl -> 0 <= n -> In p cl ->
+  InvA base (share p n s) (repeat p (Z.to_nat n) ++ R) hl fl cl.
+Proof.
+  intros [I E] Hn Hcl. split; [now apply share_counted_inv|].
+  apply (ext_transfer base s _ hl fl cl hl fl cl 0 E).
+  - left. split; [apply share_frontier|reflexivity].
+  - intros b Hb. pose proof (x_pos _ _ _ _ _ E b Hb).
+    destruct (Z.eq_dec b p) as [->|Hne]; [|now rewrite share_hdr_other].
+    assert (p <> 0) by (apply (in_below_pos _ _ _ _ _ _ I); in_lists).
+    unfold share. destruct (Z.eqb_spec p 0); [contradiction|]. cbn. rewrite hdr_set_hdr_same. lia.
+  - intros x Hx. split; [apply share_ps|now right].
+  - intros; congruence.
+Qed.
+Lemma share_invA base s R hl fl cl p n :
+  InvA base s R hl fl cl -> 0 <= n -> (p = 0 \/ In p R) ->
+  InvA base (share p n s) (if p =? 0 then R else repeat p (Z.to_nat n) ++ R) hl fl cl.
+Proof.
+  intros IA Hn Hp. destruct (Z.eqb_spec p 0) as [->|Hp0]; [exact IA|].
+  apply share_counted_invA; auto. destruct Hp; [contradiction|]. eapply root_counted; eauto. apply IA.
+Qed.
+Lemma share_list_invA base : forall l s R hl fl cl,
+  InvA base s R hl fl cl -> (forall c, In c l -> c = 0 \/ In c cl) ->
+  InvA base (share_list l s) (nz l ++ R) hl fl cl.
+Proof.
+  unfold share_list. induction l as [|c l IH]; intros s R hl fl cl I Hl; cbn [fold_left nz filter app]; auto.
+  fold (nz l). destruct (Z.eqb_spec c 0) as [->|Hc]; cbn [negb].
+  - change (share 0 1 s) with s. apply IH; auto. intros; apply Hl; now right.
+  - assert (In c cl) as Hcl by (destruct (Hl c (or_introl eq_refl)); [contradiction|auto]).
+    pose proof (share_counted_invA base s R hl fl cl c 1 I ltac:(lia) Hcl) as I1.
+    change (Z.to_nat 1) with 1%nat in I1. cbn [repeat app] in I1.
+    eapply invA_perm_R; [|apply (IH _ (c :: R) hl fl cl I1); intros; apply Hl; now right].
+    symmetry. apply Permutation_middle.
+Qed.
+
+(* ---------- dec / erase ---------- *)
+Lemma dec_invA base s R R0 hl fl cl p :
+  InvA base s R hl fl cl -> p <> 0 -> Permutation R (p :: R0) -> hdr (m s p) <> 0 ->
+  InvA base (dec p s) R0 hl fl cl.
+Proof.
+  intros [I E] Hp0 HR Hn0. split; [eapply dec_inv; eauto|].
+  assert (In p cl) as Hcl.
+  { eapply root_counted; eauto. eapply Permutation_in; [symmetry; eauto|now left]. }
+  apply (ext_transfer base s _ hl fl cl hl fl cl 0 E).
+  - left. split; reflexivity.
+  - intros b Hb. pose proof (x_pos _ _ _ _ _ E b Hb). unfold dec; cbn.
+    destruct (Z.eq_dec b p) as [->|Hne]; [rewrite hdr_set_hdr_same; lia|now rewrite hdr_set_hdr_other].
+  - intros x Hx. split; [apply dec_ps|now right].
+  - intros; congruence.
+Qed.
+
+Lemma erase_invA base s R R0 hl fl cl p :
+  InvA base s R hl fl cl -> p <> 0 -> Permutation R (p :: R0) ->
+  exists fl' cl', InvA base (erase p s) R0 hl fl' cl' /\
+                  (length cl' + length fl' = length cl + length fl)%nat.
+Proof.
+  intros [I E] Hp0 HR. destruct (Z.eq_dec (hdr (m s p)) 0) as [H0|Hn0].
+  - destruct (erase_last_inv s R R0 hl fl cl p I Hp0 HR H0) as (c1 & c2 & -> & I1).
+    exists (p :: fl), (c1 ++ c2). split; [split; [exact I1|]|rewrite !app_length; cbn; lia].
+    apply (ext_transfer base s _ hl fl (c1 ++ p :: c2) hl (p :: fl) (c1 ++ c2) 0 E).
+    + left. split; [apply erase_frontier|]. apply Permutation_app_head. cbn [app].
+      rewrite (app_assoc fl c1 c2), (app_assoc fl c1 (p :: c2)). apply Permutation_middle.
+    + intros b Hb. rewrite erase_hdr_other.
+      * apply (x_pos _ _ _ _ _ E). in_lists.
+      * intros ->. pose proof (i_nodup _ _ _ _ _ I1) as Hnd. apply NoDup_app_r in Hnd.
+        apply (NoDup_app_disj (p :: fl) (c1 ++ c2) p Hnd); [now left|exact Hb].
+    + intros x Hx. split; [apply erase_ps|right]. in_lists.
+    + intros; congruence.
+  - rewrite erase_is_dec by auto. exists fl, cl. split; [|reflexivity]. eapply dec_invA; eauto. split; auto.
+Qed.
+
+Lemma erase_list_frontier l : forall s, frontier (fold_left (fun s c => erase c s) l s) = frontier s.
+Proof. induction l as [|c l IH]; intros s; cbn; auto. rewrite IH. apply erase_frontier. Qed.
+
+Lemma erase_list_invA base : forall l s R hl fl cl,
+  InvA base s (nz l ++ R) hl fl cl ->
+  exists fl' cl', InvA base (fold_left (fun s c => erase c s) l s) R hl fl' cl' /\
+                  (length cl' + length fl' = length cl + length fl)%nat.
+Proof.
+  induction l as [|c l IH]; intros s R hl fl cl I; cbn [fold_left nz filter app] in *; [eauto|].
+  destruct (Z.eqb_spec c 0) as [->|Hc]; cbn [negb] in I.
+  - change (erase 0 s) with s. fold (nz l) in I. eauto.
+  - fold (nz l) in I. cbn [app] in I.
+    destruct (erase_invA base s (c :: nz l ++ R) (nz l ++ R) hl fl cl c I Hc (Permutation_refl _)) as (fl1 & cl1 & I1 & L1).
+    destruct (IH _ _ _ _ _ I1) as (fl2 & cl2 & I2 & L2). exists fl2, cl2. split; auto. lia.
+Qed.
+
+(* ---------- release (destructive load of one block) ---------- *)
+Lemma release_invA base s R R0 hl fl cl p :
+  InvA base s R hl fl cl -> p <> 0 -> Permutation R (p :: R0) -> hdr (m s p) = 0 ->
+  exists cl', InvA base (release p s) (nz (ps (m s p)) ++ R0) (p :: hl) fl cl' /\ Permutation cl (p :: cl').
+Proof.
+  intros [I E] Hp0 HR H0.
+  destruct (release_inv s R R0 hl fl cl p I Hp0 HR H0) as (c1 & c2 & -> & I1).
+  exists (c1 ++ c2). split; [split; [exact I1|]|symmetry; apply Permutation_middle].
+  apply (ext_transfer base s _ hl fl (c1 ++ p :: c2) (p :: hl) fl (c1 ++ c2) 0 E).
+  - left. split; [reflexivity|]. cbn [app].
+    apply (Permutation_trans (l' := hl ++ p :: fl ++ c1 ++ c2)).
+    + apply Permutation_middle.
+    + apply Permutation_app_head. rewrite (app_assoc fl c1 (p :: c2)), (app_assoc fl c1 c2). apply Permutation_middle.
+  - intros b Hb. unfold release; cbn. rewrite hdr_set_hdr_other.
+    + apply (x_pos _ _ _ _ _ E). in_lists.
+    + intros ->. pose proof (i_nodup _ _ _ _ _ I1) as Hnd.
+      apply (NoDup_app_disj (p :: hl) (fl ++ c1 ++ c2) p Hnd); [now left|]. rewrite in_app_iff. now right.
+  - intros x Hx. split; [apply release_ps|right]. in_lists.
+  - intros; congruence.
+Qed.
+
+(* ---------- writing the slots of the reserved block ---------- *)
+Lemma set_ps_hl_invA base s R hl fl cl a p :
+  InvA base s R hl fl cl -> In a hl ->
+  InvA base {| m := set_ps (m s) a p; heap := heap s; free := free s; frontier := frontier s |} R hl fl cl.
+Proof.
+  intros [I E] Ha. split; [now apply set_ps_hl_inv|].
+  assert (Hnd := i_nodup _ _ _ _ _ I).
+  destruct (proj2 (proj2 (nodup3 hl fl cl a Hnd)) Ha) as [Hfl Hcl].
+  apply (ext_transfer base s _ hl fl cl hl fl cl 0 E).
+  - left. split; reflexivity.
+  - intros b Hb. cbn. unfold set_ps, upd. destruct (Z.eqb_spec b a); [subst; contradiction|]. now apply (x_pos _ _ _ _ _ E).
+  - intros x Hx. split; [|now right]. cbn. unfold set_ps. rewrite upd_other; auto. intros ->. in_lists.
+  - intros; congruence.
+Qed.
+
+(* ---------- acquire ---------- *)
+(* how the frontier and the length of the reuse list change: the frontier moves only when the
+   reuse list has length 1, and then (and in case 2) the new reuse list has length 1 again *)
+Definition fr_rel (s : st) (hl : list Z) (s' : st) (hl' : list Z) : Prop :=
+  (frontier s' = frontier s /\ (length hl = 1 -> length hl' = 1)%nat) \/
+  (frontier s < frontier s' /\ length hl' = 1%nat).
+Lemma fr_rel_trans s hl s1 hl1 s2 hl2 : fr_rel s hl s1 hl1 -> fr_rel s1 hl1 s2 hl2 -> fr_rel s hl s2 hl2.
+Proof. unfold fr_rel. intros [[A1 A2]|[A1 A2]] [[B1 B2]|[B1 B2]]; [left|right|right|right]; split; try lia; auto. Qed.
+Lemma fr_rel_refl s hl : fr_rel s hl s hl.
+Proof. left; split; auto. Qed.
+
+Lemma acquire_invA base s R R0 hl fl cl :
+  InvA base s R hl fl cl ->
+  Permutation R (nz (ps (m s (heap s))) ++ R0) ->
+  fst (acquire s) = heap s /\
+  exists hl' fl' cl', InvA base (snd (acquire s)) (heap s :: R0) hl' fl' cl' /\ fr_rel s hl (snd (acquire s)) hl' /\
+    (length cl + length fl <= length cl' + length fl')%nat.
+Proof.
+  intros [I E] HR. destruct (acquire_cases s R R0 hl fl cl I HR) as [Hfst Hc]. split; [exact Hfst|].
+  set (r := heap s) in *.
+  assert (Hr0 : r <> 0) by (eapply heap_nonzero; eauto).
+  assert (Hrhl : In r hl) by (destruct (heap_in_hl _ _ _ _ _ I) as (l & ->); now left).
+  assert (Hnd := i_nodup _ _ _ _ _ I).
+  destruct (proj2 (proj2 (nodup3 hl fl cl r Hnd)) Hrhl) as [Hrfl Hrcl].
+  destruct (unref_facts s R hl fl cl r I Hr0 Hrcl) as [HrR Hrps].
+  assert (Hrself : ~ In r (ps (m s r))).
+  { intro Hin. apply HrR. eapply Permutation_in; [symmetry; exact HR|]. rewrite in_app_iff. left. apply in_nz. auto. }
+  assert (HRr : forall x, In x (cl ++ fl) \/ x = r -> forall b, In b (ps (m s x)) -> b <> 0 -> b <> r).
+  { intros x [Hx| ->] b Hb _ ->; [eapply Hrps; eauto|contradiction]. }
+  destruct Hc as [(Hhn & hl2 & -> & HF & I1)|[(Hh0 & -> & -> & Hfree & HF & I1)|(Hh0 & -> & fl2 & -> & Hs' & I1)]].
+  - exists (hdr (m s r) :: hl2), fl, (r :: cl). split; [split; [exact I1|]|split].
+    + apply (ext_transfer base s _ _ _ _ _ _ _ r E).
+      * left. split; [exact HF|]. cbn [app]. etransitivity; [|apply perm_swap]. apply perm_skip.
+        rewrite !app_assoc. symmetry. apply Permutation_middle.
+      * intros b Hb. unfold acquire. fold r. destruct (Z.eqb_spec (hdr (m s r)) 0); [contradiction|]. cbn.
+        destruct Hb as [<-|Hb]; [rewrite hdr_set_hdr_same; lia|].
+        rewrite hdr_set_hdr_other by (intros ->; contradiction). now apply (x_pos _ _ _ _ _ E).
+      * intros x Hx. split.
+        -- unfold acquire. fold r. destruct (Z.eqb_spec (hdr (m s r)) 0); [contradiction|]. cbn.
+           unfold set_hdr, upd. destruct (Z.eqb_spec x r); subst; auto.
+        -- in_lists.
+      * exact HRr.
+    + left. split; [exact HF|]. cbn. intros; lia.
+    + cbn. lia.
+  - exists [frontier s], [], (r :: cl). split; [split; [exact I1|]|split].
+    + apply (ext_transfer base s _ _ _ _ _ _ _ r E).
+      * right. split; [exact HF|]. cbn [app]. reflexivity.
+      * intros b Hb. unfold acquire. fold r. rewrite Hh0. cbn [Z.eqb negb]. rewrite Hfree.
+        rewrite (i_fresh _ _ _ _ _ I (frontier s)) by lia. cbn.
+        destruct Hb as [<-|Hb]; [lia|]. now apply (x_pos _ _ _ _ _ E).
+      * intros x Hx. split.
+        -- unfold acquire. fold r. rewrite Hh0. cbn [Z.eqb negb]. rewrite Hfree.
+           rewrite (i_fresh _ _ _ _ _ I (frontier s)) by lia. reflexivity.
+        -- in_lists.
+      * exact HRr.
+    + right. split; [unfold BLOCK in HF; lia|reflexivity].
+    + cbn. lia.
+  - assert (E1 : Ext base (acq_s1 s) [free s] fl2 (r :: cl)).
+    { apply (ext_transfer base s _ _ _ _ _ _ _ r E).
+      - left. split; [reflexivity|]. cbn [app]. apply (Permutation_trans (l' := free s :: r :: fl2 ++ cl)); [|apply perm_swap].
+        apply perm_skip. symmetry. apply Permutation_middle.
+      - intros b Hb. unfold acq_s1; cbn.
+        assert (b <> free s).
+        { intros ->. pose proof (i_nodup _ _ _ _ _ I1) as Hnd1. apply (NoDup_app_disj [free s] (fl2 ++ r :: cl) (free s) Hnd1); [now left|].
+          rewrite in_app_iff. now right. }
+        rewrite hdr_set_hdr_other by auto. destruct Hb as [<-|Hb]; [lia|]. now apply (x_pos _ _ _ _ _ E).
+      - intros x Hx. split; [unfold acq_s1; cbn; unfold set_hdr, upd; destruct (Z.eqb_spec x (free s)); subst; auto|]. in_lists.
+      - exact HRr. }
+    destruct (erase_list_invA base (ps (m s (free s))) (acq_s1 s) (r :: R0) [free s] fl2 (r :: cl) (conj I1 E1)) as (fl' & cl' & I2 & L2).
+    rewrite Hs'. exists [free s], fl', cl'. split; [exact I2|split].
+    + left. split; [rewrite erase_list_frontier; reflexivity|auto].
+    + cbn in *. lia.
+Qed.
+
+Lemma alloc_invA base s R R0 hl fl cl p :
+  InvA base s R hl fl cl -> Permutation R (nz p ++ R0) ->
+  fst (alloc p s) = heap s /\
+  exists hl' fl' cl', InvA base (snd (alloc p s)) (heap s :: R0) hl' fl' cl' /\ fr_rel s hl (snd (alloc p s)) hl' /\
+    (length cl + length fl <= length cl' + length fl')%nat.
+Proof.
+  intros IA HR. unfold alloc.
+  assert (In (heap s) hl) as Hh by (destruct (heap_in_hl _ _ _ _ _ (proj1 IA)) as (l & ->); now left).
+  pose proof (set_ps_hl_invA base s R hl fl cl (heap s) p IA Hh) as I'.
+  set (s' := {| m := set_ps (m s) (heap s) p; heap := heap s; free := free s; frontier := frontier s |}) in *.
+  apply (acquire_invA base s' R R0 hl fl cl I'). unfold s'; cbn [m heap]. unfold set_ps. now rewrite upd_same.
+Qed.
+
+(* ---------- non-destructive load of one block ---------- *)
+Lemma load_share_invA base s R R0 hl fl cl p :
+  InvA base s R hl fl cl -> p <> 0 -> Permutation R (p :: R0) -> hdr (m s p) <> 0 ->
+  InvA base (load_share p s) (nz (ps (m s p)) ++ R0) hl fl cl.
+Proof.
+  intros IA Hp0 HR Hn0.
+  assert (In p cl) as Hcl.
+  { eapply root_counted; eauto. apply IA. eapply Permutation_in; [symmetry; eauto|now left]. }
+  pose proof (dec_invA base s R R0 hl fl cl p IA Hp0 HR Hn0) as I1.
+  unfold load_share. apply share_list_invA; auto.
+  intros c Hc. destruct (Z.eq_dec c 0); [now left|right].
+  eapply (child_counted _ _ _ _ _ p c (proj1 I1)); auto.
+  - rewrite in_app_iff; auto.
+  - now rewrite dec_ps.
+Qed.
+
+(* ---------- the initial state ---------- *)
+Lemma init_invA base : 0 < base -> InvA base (init base) [] [base] [] [].
+Proof.
+  intros Hb. split; [now apply init_inv|]. constructor; cbn.
+  - unfold BLOCK. lia.
+  - intros a [<-|[]]. exists 0. lia.
+  - intros a (k & Hk & ->) Ha. left. unfold BLOCK in *. lia.
+  - tauto.
+  - exists (fun _ => O). tauto.
+Qed.
+
+(* ====================================================================================== *)
+(* 2. Objects chained over several blocks *)
+Lemma perm_of_cnt l1 l2 : (forall b, cnt l1 b = cnt l2 b) -> Permutation l1 l2.
+Proof. intros H. apply (Permutation_count_occ Z.eq_dec). intros b. specialize (H b). unfold cnt in H. lia. Qed.
+Ltac pcnt := apply perm_of_cnt; intros ?b; repeat (rewrite ?cnt_app, ?cnt_cons); change (cnt [] _) with 0; try lia.
+
+Lemma nz_split_last k l : Permutation (nz l) (nz (lastn k l) ++ nz (butlastn k l)).
+Proof. rewrite <- (butlastn_lastn k l) at 1. rewrite nz_app. apply Permutation_app_comm. Qed.
+
+(* ---------- allocation ---------- *)
+Definition alloc_post base (s : st) (hl fl cl : list Z) (r : Z * st) (R0 : list Z) : Prop :=
+  exists hl' fl' cl', InvA base (snd r) (fst r :: R0) hl' fl' cl' /\ fst r <> 0 /\ fr_rel s hl (snd r) hl' /\
+    (length cl + length fl <= length cl' + length fl')%nat.
+
+Lemma store_other_invA base : forall fuel rest link s R0 hl fl cl,
+  (length rest <= fuel)%nat -> link <> 0 ->
+  InvA base s (link :: nz rest ++ R0) hl fl cl ->
+  alloc_post base s hl fl cl (store_other fuel rest link s) R0.
+Proof.
+  induction fuel as [|f IH]; intros rest link s R0 hl fl cl Hlen Hl IA.
+  - destruct rest; [|cbn in Hlen; lia]. cbn. exists hl, fl, cl. split; [exact IA|split; [auto|split; [apply fr_rel_refl|lia]]].
+  - destruct rest as [|x rest'].
+    + cbn. exists hl, fl, cl. split; [exact IA|split; [auto|split; [apply fr_rel_refl|lia]]].
+    + set (rest := x :: rest') in *. cbn [store_other]. fold rest.
+      change (match rest with [] => (link, s) | _ => let '(b, s1) := alloc (pad 2 (lastn 2 rest) ++ [link]) s in store_other f (butlastn 2 rest) b s1 end)
+        with (let '(b, s1) := alloc (pad 2 (lastn 2 rest) ++ [link]) s in store_other f (butlastn 2 rest) b s1).
+      assert (HP : Permutation (link :: nz rest ++ R0) (nz (pad 2 (lastn 2 rest) ++ [link]) ++ (nz (butlastn 2 rest) ++ R0))).
+      { rewrite nz_app, nz_pad, nz_single by auto.
+        pose proof (nz_split_last 2 rest) as HS. apply perm_of_cnt. intros b.
+        pose proof (cnt_perm _ _ b HS) as HC. rewrite cnt_app in HC.
+        repeat (rewrite ?cnt_app, ?cnt_cons). change (cnt [] b) with 0. lia. }
+      destruct (alloc_invA base s _ _ hl fl cl _ IA HP) as [Hfst (hl1 & fl1 & cl1 & I1 & F1 & L1)].
+      destruct (alloc (pad 2 (lastn 2 rest) ++ [link]) s) as [b s1]. cbn [fst snd] in *. subst b.
+      assert (Hh : heap s <> 0) by (eapply heap_nonzero; apply IA).
+      assert (Hlen' : (length (butlastn 2 rest) <= f)%nat).
+      { rewrite length_butlastn. unfold rest in *. cbn [length] in *. lia. }
+      destruct (IH (butlastn 2 rest) (heap s) s1 R0 hl1 fl1 cl1 Hlen' Hh I1) as (hl2 & fl2 & cl2 & I2 & N2 & F2 & L2).
+      exists hl2, fl2, cl2. split; [exact I2|split; [auto|split; [eapply fr_rel_trans; eauto|lia]]].
+Qed.
+
+Lemma alloc_object_invA base s R R0 hl fl cl fields :
+  InvA base s R hl fl cl -> Permutation R (nz fields ++ R0) -> fields <> [] ->
+  alloc_post base s hl fl cl (alloc_object fields s) R0.
+Proof.
+  intros IA HR Hne. destruct fields as [|x f']; [congruence|]. set (fields := x :: f') in *.
+  unfold alloc_object. fold fields.
+  change (match fields with [] => (0, s) | _ => let '(b, s1) := alloc (pad 3 (lastn 3 fields)) s in store_other (length fields) (butlastn 3 fields) b s1 end)
+    with (let '(b, s1) := alloc (pad 3 (lastn 3 fields)) s in store_other (length fields) (butlastn 3 fields) b s1).
+  assert (HP : Permutation R (nz (pad 3 (lastn 3 fields)) ++ (nz (butlastn 3 fields) ++ R0))).
+  { etransitivity; [exact HR|]. rewrite nz_pad, app_assoc. apply Permutation_app_tail. apply nz_split_last. }
+  destruct (alloc_invA base s _ _ hl fl cl _ IA HP) as [Hfst (hl1 & fl1 & cl1 & I1 & F1 & L1)].
+  destruct (alloc (pad 3 (lastn 3 fields)) s) as [b s1]. cbn [fst snd] in *. subst b.
+  assert (Hh : heap s <> 0) by (eapply heap_nonzero; apply IA).
+  assert (Hlen' : (length (butlastn 3 fields) <= length fields)%nat) by (rewrite length_butlastn; lia).
+  destruct (store_other_invA base _ _ _ _ R0 hl1 fl1 cl1 Hlen' Hh I1) as (hl2 & fl2 & cl2 & I2 & N2 & F2 & L2).
+  exists hl2, fl2, cl2. split; [exact I2|split; [auto|split; [eapply fr_rel_trans; eauto|lia]]].
+Qed.
+
+(* ---------- the blocks of an object ---------- *)
+Lemma obj_blocks_ext mm mm' : (forall x, ps (mm' x) = ps (mm x)) -> forall k p, obj_blocks k mm' p = obj_blocks k mm p.
+Proof. intros H. induction k as [|k IH]; intros p; cbn; auto. unfold link_of. rewrite H, IH. reflexivity. Qed.
+Lemma obj_fields_ext mm mm' : (forall x, ps (mm' x) = ps (mm x)) -> forall k p, obj_fields k mm' p = obj_fields k mm p.
+Proof. intros H. induction k as [|k IH]; intros p; cbn; auto. unfold link_of, fields_of. rewrite !H, IH. reflexivity. Qed.
+
+Lemma nth_split_ps (l : list Z) : nth 2 l 0 <> 0 -> l = firstn 2 l ++ nth 2 l 0 :: skipn 3 l.
+Proof.
+  intros H. destruct l as [|a [|b [|c r]]]; cbn in *; try congruence.
+Qed.
+Lemma link_in mm p : link_of mm p <> 0 -> In (link_of mm p) (ps (mm p)).
+Proof. unfold link_of. intros H. rewrite (nth_split_ps _ H) at 2. rewrite in_app_iff. right. now left. Qed.
+Lemma fields_in mm p c : In c (fields_of mm p) -> In c (ps (mm p)).
+Proof.
+  unfold fields_of. rewrite in_app_iff. intros [H|H].
+  - rewrite <- (firstn_skipn 2). rewrite in_app_iff. now left.
+  - rewrite <- (firstn_skipn 3). rewrite in_app_iff. now right.
+Qed.
+Lemma nz_ps_link mm p : link_of mm p <> 0 -> Permutation (nz (ps (mm p))) (link_of mm p :: nz (fields_of mm p)).
+Proof.
+  intros H. unfold fields_of. rewrite (nth_split_ps _ H) at 1. fold (link_of mm p).
+  rewrite !nz_app. cbn [nz filter]. destruct (Z.eqb_spec (link_of mm p) 0); [contradiction|]. cbn [negb].
+  fold (nz (skipn 3 (ps (mm p)))). symmetry. apply Permutation_middle.
+Qed.
+
+Definition links_ok (k : nat) (mm : mem) (p : Z) : Prop := forall b, In b (obj_blocks k mm p) -> b <> 0.
+Definition obj_ok (k : nat) (mm : mem) (p : Z) : Prop := forall b, In b (obj_blocks k mm p) -> b <> 0 /\ hdr (mm b) = 0.
+
+(* every continuation block is a pointer slot of a counted block *)
+Lemma obj_blocks_children s R hl fl cl : Inv s R hl fl cl -> forall k q,
+  In q cl -> links_ok k (m s) (link_of (m s) q) ->
+  forall b, In b (obj_blocks k (m s) (link_of (m s) q)) -> exists x, In x cl /\ In b (ps (m s x)).
+Proof.
+  intros I. induction k as [|k IH]; intros q Hq HL b Hb.
+  - cbn in Hb. destruct Hb as [<-|[]]. exists q. split; auto. apply link_in. apply HL. now left.
+  - cbn [obj_blocks] in Hb. destruct Hb as [<-|Hb].
+    + exists q. split; auto. apply link_in. apply HL. now left.
+    + assert (Hl0 : link_of (m s) q <> 0) by (apply HL; now left).
+      apply (IH (link_of (m s) q)); auto.
+      * eapply (child_counted _ _ _ _ _ q); eauto; [rewrite in_app_iff; auto|now apply link_in].
+      * intros b' Hb'. apply HL. cbn [obj_blocks]. now right.
+Qed.
+
+(* ---------- destructive load ---------- *)
+Lemma load_object_release_invA base : forall k p s R R0 hl fl cl,
+  InvA base s R hl fl cl -> Permutation R (p :: R0) -> obj_ok k (m s) p ->
+  exists hl' cl', InvA base (load_object_release k p s) (nz (obj_fields k (m s) p) ++ R0) hl' fl cl' /\
+                  frontier (load_object_release k p s) = frontier s.
+Proof.
+  induction k as [|k IH]; intros p s R R0 hl fl cl IA HR HO.
+  - destruct (HO p (or_introl eq_refl)) as [Hp0 Hh0].
+    destruct (release_invA base s R R0 hl fl cl p IA Hp0 HR Hh0) as (cl' & I1 & _). cbn. eauto.
+  - destruct (HO p (or_introl eq_refl)) as [Hp0 Hh0].
+    destruct (release_invA base s R R0 hl fl cl p IA Hp0 HR Hh0) as (cl1 & I1 & Hcl1).
+    cbn [load_object_release obj_fields]. set (q := link_of (m s) p) in *.
+    assert (Hq0 : q <> 0) by (apply (HO q); cbn [obj_blocks]; right; destruct k; now left).
+    pose proof (proj1 IA) as I.
+    assert (HpR : In p R) by (eapply Permutation_in; [symmetry; eauto|now left]).
+    assert (Hpcl : In p cl) by (eapply root_counted; eauto).
+    (* p is referenced once, by the root: it is no pointer slot of a counted block *)
+    assert (Hpslot : forall x, In x cl -> ~ In p (ps (m s x))).
+    { intros x Hx Hin. pose proof (i_rc _ _ _ _ _ I p Hpcl) as Hrc. unfold refs in Hrc. rewrite cnt_app, Hh0 in Hrc.
+      pose proof (cnt_in_pos _ _ HpR).
+      pose proof (cnt_flat_map_in (fun x => ps (m s x)) (cl ++ fl) x p ltac:(rewrite in_app_iff; auto) Hin). lia. }
+    assert (HL : links_ok k (m s) q).
+    { intros b Hb. apply (HO b). cbn [obj_blocks]. now right. }
+    assert (Hne : forall b, In b (obj_blocks k (m s) q) -> b <> p).
+    { intros b Hb ->. destruct (obj_blocks_children s R hl fl cl I k p Hpcl HL p Hb) as (x & Hx & Hin).
+      eapply Hpslot; eauto. }
+    assert (HO1 : obj_ok k (m (release p s)) q).
+    { intros b Hb. rewrite (obj_blocks_ext (m s)) in Hb by (intros; apply release_ps).
+      destruct (HO b ltac:(cbn [obj_blocks]; now right)) as [Hb0 Hbh]. split; auto.
+      unfold release; cbn. rewrite hdr_set_hdr_other; auto. }
+    assert (HP1 : Permutation (nz (ps (m s p)) ++ R0) (q :: nz (fields_of (m s) p) ++ R0)).
+    { change (q :: nz (fields_of (m s) p) ++ R0) with ((q :: nz (fields_of (m s) p)) ++ R0).
+      apply Permutation_app_tail. now apply nz_ps_link. }
+    destruct (IH q (release p s) _ _ (p :: hl) fl cl1 I1 HP1 HO1) as (hl2 & cl2 & I2 & F2).
+    exists hl2, cl2. split; [|rewrite F2; reflexivity].
+    eapply invA_perm_R; [|exact I2].
+    rewrite (obj_fields_ext (m s)) by (intros; apply release_ps).
+    rewrite nz_app. rewrite <- !app_assoc. apply Permutation_app_swap_app.
+Qed.
+
+(* ---------- non-destructive load ---------- *)
+Lemma share_walk_invA base : forall k p s R hl fl cl,
+  InvA base s R hl fl cl -> In p cl -> links_ok k (m s) p ->
+  InvA base (share_walk k p s) (nz (obj_fields k (m s) p) ++ R) hl fl cl.
+Proof.
+  induction k as [|k IH]; intros p s R hl fl cl IA Hp HL; cbn [share_walk obj_fields].
+  - apply share_list_invA; auto. intros c Hc. destruct (Z.eq_dec c 0); [now left|right].
+    eapply (child_counted _ _ _ _ _ p c (proj1 IA)); auto. rewrite in_app_iff; auto.
+  - set (q := link_of (m s) p) in *.
+    assert (Hq0 : q <> 0) by (apply (HL q); cbn [obj_blocks]; right; destruct k; now left).
+    assert (Hq : In q cl).
+    { eapply (child_counted _ _ _ _ _ p q (proj1 IA)); auto; [rewrite in_app_iff; auto|now apply link_in]. }
+    assert (I1 : InvA base (share_list (fields_of (m s) p) s) (nz (fields_of (m s) p) ++ R) hl fl cl).
+    { apply share_list_invA; auto. intros c Hc. destruct (Z.eq_dec c 0); [now left|right].
+      eapply (child_counted _ _ _ _ _ p c (proj1 IA)); auto; [rewrite in_app_iff; auto|now apply fields_in]. }
+    assert (HL1 : links_ok k (m (share_list (fields_of (m s) p) s)) q).
+    { intros b Hb. rewrite (obj_blocks_ext (m s)) in Hb by (intros; apply share_list_ps). apply HL. cbn [obj_blocks]. now right. }
+    pose proof (IH q _ _ hl fl cl I1 Hq HL1) as I2.
+    eapply invA_perm_R; [|exact I2].
+    rewrite (obj_fields_ext (m s)) by (intros; apply share_list_ps).
+    rewrite nz_app. rewrite <- !app_assoc. apply Permutation_app_swap_app.
+Qed.
+
+Lemma load_object_share_invA base k p s R R0 hl fl cl :
+  InvA base s R hl fl cl -> p <> 0 -> Permutation R (p :: R0) -> hdr (m s p) <> 0 -> links_ok k (m s) p ->
+  InvA base (load_object_share k p s) (nz (obj_fields k (m s) p) ++ R0) hl fl cl.
+Proof.
+  intros IA Hp0 HR Hn0 HL.
+  assert (In p cl) as Hcl.
+  { eapply root_counted; eauto. apply IA. eapply Permutation_in; [symmetry; eauto|now left]. }
+  pose proof (dec_invA base s R R0 hl fl cl p IA Hp0 HR Hn0) as I1.
+  unfold load_object_share.
+  rewrite <- (obj_fields_ext (m s) (m (dec p s))) by (intros; apply dec_ps).
+  apply share_walk_invA; auto.
+  intros b Hb. rewrite (obj_blocks_ext (m s)) in Hb by (intros; apply dec_ps). now apply HL.
+Qed.
+
+Lemma share_walk_frontier : forall k p s, frontier (share_walk k p s) = frontier s.
+Proof. induction k as [|k IH]; intros p s; cbn [share_walk]; [apply share_list_frontier|]. rewrite IH. apply share_list_frontier. Qed.
